@@ -141,9 +141,10 @@ def own_game(fam: str, n: int, rnd):
         v = [Fraction(2 ** 40) * G.popcount(c) ** 2 + 64 * pert[c] for c in range(N)]
         v[0] = Fraction(0)
     elif fam == "own_tiny":
-        # an integer superadditive game times 2^-45 (values ~1e-13, exact in float64): normalisation, gaps and "done" are scale-free,
-        # absolute tolerances are not
-        v = [x * Fraction(1, 2 ** 45) for x in G.sa_game(n, rnd, "int")]
+        # an integer superadditive game times 2^-45 or 2^-60 (values ~1e-13 / ~1e-17, exact in float64): normalisation, gaps and
+        # "done" are scale-free, absolute tolerances are not
+        sc_ = Fraction(1, 2 ** rnd.choice([45, 60, 60]))
+        v = [x * sc_ for x in G.sa_game(n, rnd, "int")]
     elif fam == "own_pow2":
         # integer superadditive game whose normalised values are dyadic (surplus of N is a power of two):
         # float sums of normalised values are then exact (used for the linear observation)
@@ -182,6 +183,20 @@ class Hidden:
         M.normalize(nc)                       # the real normalisation: an opaque input of the model
         self.norm = fl(nc.get_values())
         self.ok = finite(self.vals) and finite(self.norm)
+        # the normalisation is an opaque input of the MODEL, not of the property: "the observation shows the normalised hidden
+        # value" — checked here against the closed form (v(c) − Σ_{i∈c} v{i}) / (v(N) − Σ_i v{i}) on exact rationals, for games that
+        # are clearly not additive (surplus above 1e-6 of the singleton total); scale-free, so tiny and huge games are judged alike
+        self.norm_bad = None
+        if self.ok:
+            fv = [Fraction(x) for x in self.vals]
+            sing = [fv[1 << i] for i in range(n)]
+            wN = fv[-1] - sum(sing)
+            if wN > 0 and wN > Fraction(1, 10 ** 6) * abs(sum(sing)):
+                for c in range(2 ** n):
+                    want = (fv[c] - sum(sing[i] for i in range(n) if c >> i & 1)) / wN
+                    if abs(Fraction(self.norm[c]) - want) > Fraction(1, 10 ** 9):
+                        self.norm_bad = (c, float(want), self.norm[c])
+                        break
         self.asym = G.asymmetric(self.vals, n)
         self.cache: dict = {}
 
@@ -458,6 +473,10 @@ class Case:
         env, h = self.env, self.cur
         ig = env.incomplete_game
         K = self.known()
+        if self.prop == "C09" and h is not None and h.norm_bad is not None and not self.dead:
+            c_, want_, got_ = h.norm_bad
+            return self.violate(f"after {after}: the normalised hidden game the observation is taken from is not the normal form of the "
+                                f"hidden game (coalition {c_}: {got_!r} instead of {want_!r})", "normal-form", {"coalition": c_})
         kn = [bool(x) for x in ig.are_values_known()]
         if self.prop != "C09":
             # the environment invariants are C09's business; here only keep the abstract state honest
